@@ -77,7 +77,12 @@ pub fn c03(cx: &mut Ctx) {
     // set up once and remember that the body ended
     for (vi, hs) in [vec![("host", &b"h.test"[..]), ("transfer-encoding", &b"chunked"[..])],
                      vec![("transfer-encoding", &b"Chunked"[..]), ("host", &b"h.test"[..]), ("x-a", &b"1"[..])],
-                     vec![("host", &b"h.test"[..])]].iter().enumerate() {
+                     vec![("host", &b"h.test"[..])],
+                     // the coding name in any letter case, beside a Content-Length: chunked decides the writer
+                     vec![("transfer-encoding", &b"Chunked"[..]), ("content-length", &b"5"[..])],
+                     vec![("content-length", &b"5"[..]), ("transfer-encoding", &b"CHUNKED"[..]), ("host", &b"h.test"[..])],
+                     vec![("transfer-encoding", &b"gzip, cHuNkEd"[..]), ("content-length", &b"3"[..])],
+                     vec![("transfer-encoding", &b" chunked "[..])]].iter().enumerate() {
         for first in [0usize, 1, 5] {
             for cap in [5usize, 6, 64] {
                 cx.case("own");
@@ -153,6 +158,43 @@ pub fn c04(cx: &mut Ctx) {
                     cx.op("chunked?");
                     cx.op("proceed");
                 }
+            }
+        }
+    }
+    // the Content-Length arrives through Flow::header in Prepare (not on the request itself); also on a flow
+    // created by a redirect
+    for n in [0usize, 1, 3, 7] {
+        for (kind, m) in [(0, "POST"), (0, "PUT"), (1, "GET"), (2, "POST")] {
+            for c1 in [0usize, 2, 64] {
+                cx.case("hdrcl");
+                if kind == 2 {
+                    cx.rec.new_flow("GET HTTP/1.1 http://a.test/p 1 x-a 31");
+                    cx.op("proceed"); cx.op("write 4096"); cx.op("proceed");
+                    cx.op(&format!("resp {}", hx(b"HTTP/1.1 302 Found\r\nLocation: /n\r\nContent-Length: 0\r\n\r\n")));
+                    cx.op("proceed");
+                    if cx.rec.state() != "redirect" { continue; }
+                    cx.op("follow never");
+                    if cx.rec.state() != "prepare" { continue; }
+                    cx.op("despite");
+                } else {
+                    cx.rec.new_flow(&format!("{} HTTP/1.1 http://a.test/p 0", m));
+                    if kind == 1 { cx.op("despite"); }
+                }
+                cx.op(&format!("hdr content-length {}", hx(n.to_string().as_bytes())));
+                cx.op("proceed"); cx.op("write 4096"); cx.op("proceed");
+                if cx.rec.state() != "sendBody" { continue; }
+                cx.op("chunked?");
+                cx.op("canproceed");
+                let (_, used) = bwrite(cx, 0, n + 1, c1);       // one more than declared: refused whatever the space
+                let (_, used2) = bwrite(cx, used, n, c1);
+                cx.op("canproceed");
+                let left = n - used - used2;
+                cx.op(&format!("direct {}", left + 1));
+                cx.op(&format!("direct {}", left));
+                cx.op("canproceed");
+                bwrite(cx, 0, 0, 8);
+                cx.op("canproceed");
+                cx.op("proceed");
             }
         }
     }
